@@ -279,9 +279,17 @@ def lxml_ids(res, nodes):
 
 
 def gen_case(rng):
+    c = _gen_case(rng)
+    # a caller binding of `svg` (the name of one of the library's common namespaces) is used by the expression
+    if c["ns"] and any(p == "svg" for p, _ in c["ns"]) and rng.random() < 0.8:
+        c["expr"] = c["expr"].replace("p:", "svg:") if "p:" in c["expr"] else "svg:a/" + c["expr"].lstrip("/")
+    return c
+
+
+def _gen_case(rng):
     xml = gendoc(rng)
     return {"xml": xml, "ctx": 0 if rng.random() < 0.5 else rng.randrange(0, 1000), "expr": genexpr(rng) if rng.random() < 0.8 else gen_safe(rng),
-            "ns": [["p", "u"]] if rng.random() < 0.6 else rng.choice([None, None, [["p", "u"], ["", "d"]], [["p", "u"], ["", "d"]], [["q", "u"]], [], [],
+            "ns": [["p", "u"]] if rng.random() < 0.5 else rng.choice([[["p", "u"], ["svg", "u"]], [["svg", "u"]]]) if rng.random() < 0.3 else rng.choice([None, None, [["p", "u"], ["", "d"]], [["p", "u"], ["", "d"]], [["q", "u"]], [], [],
                                                                  [["p", "u"], ["", "u"]],
                                                                  # the name of one of the library's common namespaces, bound by the caller
                                                                  [["p", "u"], ["svg", "u"]], [["p", "u"], ["svg", "u"]], [["svg", "u"]]])}
